@@ -17,7 +17,7 @@ RULE = (
     "step in {None} u 1..n+1, both source[a:b:c] and ops.slice(a,b,c), source ending in completion or in an "
     "error after k elements; integer form source[i] for i in [-(n+2), n+2]; plus generated large magnitudes. "
     "Oracle: list(range(n))[a:b:c] then completion; on error the emitted elements must be a prefix-consistent "
-    "subsequence of the expected list followed by that error. Non-trivial: 0 < len(expected) < n or "
+    "subsequence of the expected list followed by that error; the same sliced observable subscribed a second time must give the same result. Non-trivial: 0 < len(expected) < n or "
     "sign(start) != sign(stop). Distinct = distinct case JSON."
 )
 ASSUMPTIONS = [
@@ -52,6 +52,12 @@ def _run(case):
     inc = lab.run()
     if lab.escaped is not None:
         raise lab.escaped
+    # the same sliced observable subscribed a second time (cold source) must give the same list again
+    p2 = lab.probe("p2")
+    p2.subscribe(out)
+    lab.run()
+    if lab.escaped is not None:
+        raise lab.escaped
     full = list(range(n))
     if form == "index":
         try:
@@ -67,6 +73,10 @@ def _run(case):
     ok_g, msg = p.grammar_ok()
     if not ok_g:
         return FAIL(f"{sigkind}:grammar", msg)
+    got2 = [v[1] for v in p2.values()]
+    term2 = p2.terminal()
+    if got2 != [v[1] for v in p.values()] or (term2 or [None, None])[1] != (p.terminal() or [None, None])[1]:
+        return FAIL(f"{sigkind}:second-subscription-differs", f"case={case} first={[v[1] for v in p.values()]}/{p.terminal()} second={got2}/{term2}")
     nontrivial = (0 < len(expected) < n) or ((a is not None and b is not None) and ((a < 0) != (b < 0)))
     cls = []
     if a is not None and a < 0 and (b is None or b >= 0):
